@@ -154,6 +154,34 @@ class C18(PropertyCheck):
         "thorough": "every mask of a 3x3 interior inside a 5x5 frame with sub-sizes 1,2,3,4 and every mask "
                     "of a 3x4 interior inside a 5x6 frame (4095 shapes) with sub-size 2",
     }
+    modelled_functions = [
+        "autoarray/structures/grids/grid_2d_util.py:relocated_grid_via_jit_from",
+        "autoarray/structures/grids/grid_2d_util.py:furthest_grid_2d_slim_index_from",
+        "autoarray/structures/grids/grid_2d_util.py:grid_2d_centre_from",
+        "autoarray/inversion/pixelization/border_relocator.py:sub_slim_indexes_for_slim_index_via_mask_2d_from",
+        "autoarray/inversion/pixelization/border_relocator.py:sub_border_pixel_slim_indexes_from",
+        "autoarray/inversion/pixelization/border_relocator.py:BorderRelocator.__init__",
+        "autoarray/inversion/pixelization/border_relocator.py:BorderRelocator.sub_border_slim",
+        "autoarray/inversion/pixelization/border_relocator.py:BorderRelocator.sub_grid",
+        "autoarray/inversion/pixelization/border_relocator.py:BorderRelocator.border_grid",
+        "autoarray/inversion/pixelization/border_relocator.py:BorderRelocator.sub_border_grid",
+        "autoarray/inversion/pixelization/border_relocator.py:BorderRelocator.relocated_grid_from",
+        "autoarray/inversion/pixelization/border_relocator.py:BorderRelocator.relocated_mesh_grid_from",
+        "autoarray/operators/over_sampling/over_sample_util.py:total_sub_pixels_2d_from",
+        "autoarray/operators/over_sampling/over_sample_util.py:slim_index_for_sub_slim_index_via_mask_2d_from",
+        "autoarray/operators/over_sampling/over_sample_util.py:grid_2d_slim_over_sampled_via_mask_from",
+        "autoarray/geometry/geometry_util.py:central_pixel_coordinates_2d_from",
+        "autoarray/geometry/geometry_util.py:central_scaled_coordinate_2d_from",
+        "autoarray/mask/mask_2d_util.py:total_pixels_2d_from",
+        "autoarray/mask/mask_2d_util.py:border_slim_indexes_from",
+        "autoarray/mask/mask_2d_util.py:check_if_border_pixel",
+        "autoarray/mask/mask_2d_util.py:total_border_pixels_from",
+        "autoarray/mask/mask_2d_util.py:edge_1d_indexes_from",
+        "autoarray/inversion/pixelization/mesh/abstract.py:AbstractMesh.relocated_grid_from",
+        "autoarray/inversion/pixelization/mesh/abstract.py:AbstractMesh.relocated_mesh_grid_from",
+        "autoarray/inversion/pixelization/mesh/rectangular.py:Rectangular.mapper_grids_from",
+        "autoarray/inversion/pixelization/mesh/triangulation.py:Triangulation.mapper_grids_from",
+    ]
     trusted_extra = [
         "libm sqrt is a parameter of the model (theorems assume 0<=sqrt x and sqrt x*sqrt x = x for x>=0; "
         "discharged for Real.sqrt); the driver runs IEEE doubles with Float.sqrt",
